@@ -141,6 +141,18 @@ Theorem c06_bo_pick_not_excluded :
 Proof. intros C M meqb ms Hm. exact (bo_select_not_excluded C M meqb ms Hm). Qed.
 Print Assumptions c06_bo_pick_not_excluded.
 
+(* batch suggestions (get_batch_configs, greedy selection): for EVERY ranking and local optimiser of
+   every greedy iteration, the members of a batch have pairwise different match strings and none
+   has the match string of an excluded (observed / pending / failed) configuration *)
+Theorem c06_bo_batch_no_repeat :
+  forall (C M : Type) (meqb : M -> M -> bool) (ms : C -> M),
+  (forall a b, meqb a b = true <-> a = b) ->
+  forall size n e (oracles : list (list C * (C -> C))),
+  NoDup (map ms (bo_batch C M meqb ms size n e oracles)) /\
+  forall c, In c (bo_batch C M meqb ms size n e oracles) -> ~ In (ms c) e.
+Proof. intros C M meqb ms Hm size n e oracles. exact (bo_batch_fresh C M meqb ms Hm size n e oracles). Qed.
+Print Assumptions c06_bo_batch_no_repeat.
+
 (* --- grid search ---------------------------------------------------------------------------
    allow_duplicates = False, any grid (product order, or any shuffle of it), any initial points,
    any history with k get_config calls: the answers are exactly
